@@ -1,1 +1,4 @@
 import NmfuProps.EquivSound
+import NmfuProps.RtBridge
+import NmfuProps.C05
+import NmfuProps.C06
